@@ -65,8 +65,9 @@ def _run_structural(ctx):
     tcon = f"{tw.module.relpath}::{tw.qual}"
     r1 = ctx.rule("R1", "memoised post-order: all dependencies are visited before the target's own outputs are touched, each target once", min_instances=3)
     if visit is None:
-        r1.violation(tcon, "the visitor of touch_workflow was not found", tw.where)
-        return
+        # (no nested visitor: the traversal is written another way - the command's evaluation on the witness projects decides, see run())
+        from ..loader import AnalysisError
+        raise AnalysisError("touch_workflow has no nested visitor function")
     vcon = f"{visit.module.relpath}::{visit.qual}"
     sem = VisitSem(ctx, visit)
     graph_p = tw.positional_params()[1]
